@@ -103,6 +103,15 @@ func init() {
 			if g.chance(1, 2) {
 				p.Knobs.MapSeed = g.R.Uint64() | 1
 			}
+			g.swarmExtras(p, true, false)
+			if g.chance(1, 6) {
+				// (wave 6) the plugin cannot be reached or its answer is lost at some validations: no verdict is not an
+				// acceptance
+				p.Profile += "+plugin-faults"
+				for i := 0; i <= g.pick(3); i++ {
+					p.Faults = append(p.Faults, Fault{Kind: "val-error", On: "val", N: 1 + g.pick(8)})
+				}
+			}
 			return p
 		},
 		Run: func(t *testing.T, plan *Plan) *Result {
